@@ -147,11 +147,18 @@ def is_zero_importance(imp):
 # lattice helpers (independent of the repository's Lattice.py)
 # --------------------------------------------------------------------------
 
-def _plane_nd(deck_surfs, sid):
+def _plane_nd(deck_surfs, sid, trs=None, facet=None):
     s = deck_surfs[abs(sid)]
     k = s['kind'].lower()
     p = s['params']
-    if k in ('px', 'py', 'pz'):
+    if facet is not None:
+        if k != 'rpp':
+            raise ModelError('lattice facets are modelled for RPP only')
+        ax = (facet - 1) // 2
+        n = np.zeros(3)
+        n[ax] = 1.0
+        n_, d_ = n, p[2 * ax + (1 if facet % 2 == 1 else 0)]
+    elif k in ('px', 'py', 'pz'):
         n = np.zeros(3)
         n[mgeom.AXIS[k[1]]] = 1.0
         n_, d_ = n, p[0]
@@ -162,11 +169,16 @@ def _plane_nd(deck_surfs, sid):
     else:
         raise ModelError('lattice surface %d is not a plane' % sid)
     if s.get('tr') is not None:
-        raise ModelError('transformed lattice planes not modelled')
+        if trs is None:
+            raise ModelError('transformed lattice plane without TR table')
+        T = rigid_of(trs[s['tr']]['spec'])
+        # aux: n.a = d with a = B (p - o)  ->  (B^T n).p = d + (B^T n).o
+        n_ = T.B.T @ np.asarray(n_, dtype=float)
+        d_ = d_ + float(n_ @ T.o)
     return n_, d_
 
 
-def rect_lattice_frame(deck_surfs, leaves):
+def rect_lattice_frame(deck_surfs, leaves, trs=None):
     """From the signed plane leaves of a LAT=1 cell (in card order, pairs
     consecutive) return (W, c): rows of W are the reciprocal vectors and the
     pair coordinate is s = W p - c; element index = floor(s)."""
@@ -174,8 +186,9 @@ def rect_lattice_frame(deck_surfs, leaves):
         raise ModelError('LAT=1 cell needs 2, 4 or 6 planes')
     W, C = [], []
     for q in range(0, len(leaves), 2):
-        na, da = _plane_nd(deck_surfs, leaves[q])
-        nb, db = _plane_nd(deck_surfs, leaves[q + 1])
+        na, da = _plane_nd(deck_surfs, leaves[q][0], trs, leaves[q][1])
+        nb, db = _plane_nd(deck_surfs, leaves[q + 1][0], trs,
+                           leaves[q + 1][1])
         # make the two normals comparable (same direction)
         na_u = na / np.linalg.norm(na)
         nb_u = nb / np.linalg.norm(nb)
@@ -314,13 +327,15 @@ class Locator:
         self._locate_u(0, P, np.arange(len(P)), (), out, 0)
         return out
 
-    def _leaves(self, expr):
+    def _leaves(self, expr, with_facets=False):
         if expr[0] == 's':
-            return [expr[1]]
+            return [(expr[1], None)] if with_facets else [expr[1]]
+        if expr[0] == 'f' and with_facets:
+            return [(expr[1], expr[2])]
         if expr[0] == '&':
             res = []
             for sub in expr[1:]:
-                res.extend(self._leaves(sub))
+                res.extend(self._leaves(sub, with_facets))
             return res
         raise ModelError('lattice cell must be an intersection of planes')
 
@@ -366,8 +381,8 @@ class Locator:
 
     def lattice_info(self, c):
         """(W, C, A, ranges, univs) of a LAT=1 cell."""
-        leaves = self._leaves(c['expr'])
-        W, C = rect_lattice_frame(self.surfs, leaves)
+        leaves = self._leaves(c['expr'], with_facets=True)
+        W, C = rect_lattice_frame(self.surfs, leaves, self.trs)
         A = lattice_vectors(W)
         fill = c['fill']
         ranges = [tuple(r) for r in fill['ranges']]
